@@ -100,6 +100,7 @@ class Ctx:
         self.cur_globals = []
         self.inline_depth = 0
         self.loop_cache = {}
+        self.heap_terms = {}
         self.cur_module = None
         self.cur_class = None
         self.hidden_state = []
